@@ -1441,7 +1441,13 @@ fn c17_long(input: &Input, obs: &mut Obs) -> Result<(), Fail> {
     let mut cnt = 0u64;
     for len in p[0]..p[0] + 8 {
         let len = len as usize;
-        let base = format!("/{}", "p".repeat(len.saturating_sub(1)));
+        // the last character of the path is ASCII, a two-byte or a three-byte one: every byte offset
+        // of the absolute path is straddled by a multi-byte character for some length
+        for tail in ["p", "\u{e9}", "\u{4e2d}"] {
+        if len < 1 + tail.len() {
+            continue;
+        }
+        let base = format!("/{}{}", "p".repeat(len - 1 - tail.len()), tail);
         for (pi, prefix) in ["", "/api/v1"].iter().enumerate() {
             let log = Arc::new(Mutex::new(Vec::new()));
             let mut router: HttpRoutes<u32> = HttpRoutes::new("S".to_string(), prefix.to_string());
@@ -1453,7 +1459,7 @@ fn c17_long(input: &Input, obs: &mut Obs) -> Result<(), Fail> {
                     return Err(Fail::new("C17:add-route", format!("distinct route #{} of length {} refused", i, path.len())));
                 }
             }
-            let probes = [base.clone(), format!("{}x", base), format!("{}/y", base), format!("{}z", base), format!("{}xx", base), base[..base.len() - 1].to_string()];
+            let probes = [base.clone(), format!("{}x", base), format!("{}/y", base), format!("{}z", base), format!("{}xx", base), base[..base.len() - tail.len()].to_string()];
             for (k, probe) in probes.iter().enumerate() {
                 for mi in 0..3u8 {
                     for form in 0..2 {
@@ -1486,6 +1492,7 @@ fn c17_long(input: &Input, obs: &mut Obs) -> Result<(), Fail> {
                     }
                 }
             }
+        }
         }
     }
     obs.extra_evals = cnt.saturating_sub(1);
